@@ -31,6 +31,10 @@ type OverlapCase struct {
 	Procs      int   `json:"procs"`
 	Rounds     int   `json:"rounds"`
 	Ambient    int   `json:"ambient,omitempty"`
+	// CancelEvery > 0: every CancelEvery-th publish of each publisher uses a
+	// context of its own that is cancelled as soon as PublishContext has
+	// returned, i.e. while the event may still be queued behind others.
+	CancelEvery int `json:"cancel_every,omitempty"`
 }
 
 // progress counters shared with the stall oracle
@@ -129,6 +133,7 @@ func runOverlap(c *OverlapCase, k *counters) *vkit.Outcome {
 		}
 		var start, done sync.WaitGroup
 		var ready atomic.Int32
+		var cancelled sync.Map // ids published with a context cancelled right afterwards
 		kk := k
 		start.Add(1)
 		base := 0
@@ -139,7 +144,14 @@ func runOverlap(c *OverlapCase, k *counters) *vkit.Outcome {
 				ready.Add(1)
 				start.Wait()
 				for k := 0; k < n; k++ {
-					eventbus.Publish(bus, Ev{base + k})
+					if c.CancelEvery > 0 && k%c.CancelEvery == c.CancelEvery-1 {
+						ctx, cancel := context.WithCancel(context.Background())
+						cancelled.Store(base+k, true)
+						eventbus.PublishContext(bus, ctx, Ev{base + k})
+						cancel()
+					} else {
+						eventbus.Publish(bus, Ev{base + k})
+					}
 					kk.published.Add(1)
 					// a synchronous handler has run by the time Publish returns
 					if hi := missing(base + k); hi >= 0 {
@@ -168,12 +180,20 @@ func runOverlap(c *OverlapCase, k *counters) *vkit.Outcome {
 			seen := append([]int{}, st.seen...)
 			st.mu.Unlock()
 			sort.Ints(seen)
-			ok := len(seen) == total
-			for k := 0; ok && k < total; k++ {
-				ok = seen[k] == k
+			// every event exactly once; one whose context was cancelled
+			// while it was queued (asynchronous handlers only) at most once
+			cnt := map[int]int{}
+			for _, id := range seen {
+				cnt[id]++
 			}
+			ok := true
+			for id := 0; ok && id < total; id++ {
+				_, canc := cancelled.Load(id)
+				ok = cnt[id] == 1 || (cnt[id] == 0 && canc && !st.sync)
+			}
+			ok = ok && (len(seen) == 0 || (seen[0] >= 0 && seen[len(seen)-1] < total))
 			if !ok {
-				o.Failf("", "round %d: Sequential handler %d %+v saw events %v, expected each of 0..%d exactly once", round, i, c.Handlers[i], seen, total-1)
+				o.Failf("", "round %d: Sequential handler %d %+v saw events %v, expected each of 0..%d exactly once (at most once if its context was cancelled while queued)", round, i, c.Handlers[i], seen, total-1)
 				return o
 			}
 		}
@@ -181,6 +201,9 @@ func runOverlap(c *OverlapCase, k *counters) *vkit.Outcome {
 	o.Nontrivial = len(c.Publishers) >= 2 && total >= 2
 	if o.Nontrivial {
 		o.Class("two_or_more_concurrent_publishers")
+	}
+	if c.CancelEvery > 0 {
+		o.Class("publishes_with_own_context_cancelled_while_queued")
 	}
 	return o
 }
